@@ -831,5 +831,7 @@ func main() {
 		}
 		malformed(o, "malformed.random", r.Pick(-1, 0, 1, 64), b)
 	}
+	// 7./8. appended case kinds: plain frames inside compressed mode, event sequences over two Conns (conn.go)
+	connAndPlainCases(o)
 	o.Note("list model up to %d payload bytes; larger payloads: header arithmetic (pack_hdr, proved equal to pack) and predicate on the implementation", listLimit)
 }
